@@ -85,6 +85,24 @@ PROPERTIES["C13"] = {
     "assumptions": ["sampling, not enumeration", "bounds: <=41 ops, <=12 live instances", "must-contain is restricted to instances the program holds in its handle table at the end of the query"],
 }
 
+PROPERTIES["C20"] = {
+    "machine": "lifecycle_sim",
+    "engine": "Sim-L",
+    "level": "exploration",
+    "level_text": "Seeded search over programs that repeat one cycle body 3-6 times - create hierarchy and ontology instances, relate them, tie them into reference cycles, evaluate queries with and without explicit domains (drained, partially consumed, only built), hold or drop results and query objects - and end every cycle by dropping every program reference, collecting, sweeping and taking a census. Rules: every instance whose last program reference is gone is dead at the census (survivors are attributed at the end of the run by emptying the process-wide expression tables and collecting again: what dies only then is the known expression-registry finding, what still lives is a violation reported with its referrers); after a sweep the symbol graph, the instance index, the per-class lists and the relation index hold nothing of collected instances; the size vector of these structures is the same after every warmed-up cycle.",
+    "design_ref": "DESIGN.md section 5, C20",
+    "level_note": "The bookkeeping and growth rules read SymbolGraph's private containers because the statement is about krrood-held structures; a structure missing under its anchored name is counted as not measurable, never as a violation. Two open findings (F-C20-1, F-C20-2: immortal expressions) are matched on retained_via=expression-registry AND explicit_domain=true / structure=expression-registry only; half of the runs avoid explicit domains so that everything else is explored unshadowed.",
+    "technique": "deterministic simulation: scheduled reference drops / gc / sweep with a weak-reference census oracle, in-run neutraliser (severing the expression tables) for attribution, size-vector invariant across repeated cycles",
+    "tiers": {
+        "quick": {"runs": 4000, "wall_s": 150, "triage_s": 60},
+        "thorough": {"runs": 300000, "wall_s": 3000, "triage_s": 300},
+    },
+    "cfg": {},
+    "rule": "one run = one cycle body (1-5 creations, 0-4 relations, optional tie, 0-3 queries, optional gc/sweep/drop) repeated 3-6 times, each cycle ending with dropall/gc/sweep/census. Non-trivial: at least one instance created and at least three censuses. Distinct: hash of (body op kinds with classes, domain kinds and consumption modes, cycle count, cycle end).",
+    "components": ["real: SymbolGraph and its indexes, WrappedInstance weak references, descriptors and monitored containers, EQL engine incl. expression registry and RWXNode graph, CPython refcounting and gc", "stub: hierarchy and ontology classes, the program's handle table (sim/worlds/oworld.py)"],
+    "assumptions": ["sampling, not enumeration", "retention is judged only after ALL program references (instances, query objects, results, iterators) are dropped", "the automatic cyclic GC is disabled; gc.collect() is an op"],
+}
+
 # <<NEW-PROPERTIES>>
 
 ENGINES = {
@@ -114,5 +132,5 @@ NOT_APPLICABLE = {
     "C11": "pattern matching vs explicit query: pure in (pattern, data); " + _PURE,
     "C12": "predicates/symbolic functions, concrete vs symbolic call: pure in (signature, call shape, binding); " + _PURE,
     "C18": "JSON round trip: pure in the value; " + _PURE,
-    "C15": _WIP, "C16": _WIP, "C17": _WIP, "C19": _WIP, "C20": _WIP,
+    "C15": _WIP, "C16": _WIP, "C17": _WIP, "C19": _WIP,
 }
